@@ -30,12 +30,19 @@ type Target interface {
 type Mock interface {
 	CallM(tok int)
 	CallN(tok int)
-	MCalls() []int
-	NCalls() []int
+	MCalls() Snap
+	NCalls() Snap
 	ResetM()
 	ResetAll()
 	SetMFunc(f func(tok int))
 	SetNFunc(f func(tok int))
+}
+
+// Snap is one result of an accessor: the records decoded to tokens at the time of the
+// read, and a function that decodes the very same returned slice again later.
+type Snap struct {
+	Tokens []int
+	Again  func() []int
 }
 
 const (
@@ -99,6 +106,7 @@ type hop struct {
 	call   int
 	ret    int
 	result []int
+	again  func() []int
 	thread int
 }
 
@@ -158,11 +166,13 @@ func instance(t Target, sc Scenario) sched.Instance {
 			rec.end(s, h)
 		case opMCalls:
 			h := rec.begin(s, opMCalls, 0)
-			h.result = m.MCalls()
+			sn := m.MCalls()
+			h.result, h.again = sn.Tokens, sn.Again
 			rec.end(s, h)
 		case opNCalls:
 			h := rec.begin(s, opNCalls, 0)
-			h.result = m.NCalls()
+			sn := m.NCalls()
+			h.result, h.again = sn.Tokens, sn.Again
 			rec.end(s, h)
 		case opResetM:
 			h := rec.begin(s, opResetM, 0)
@@ -237,7 +247,15 @@ func instance(t Target, sc Scenario) sched.Instance {
 	}
 	check := func(s *sched.Scheduler) (string, []sched.Failure) {
 		var fails []sched.Failure
-		finalM, finalN := m.MCalls(), m.NCalls()
+		finalM, finalN := m.MCalls().Tokens, m.NCalls().Tokens
+		// a slice already returned by an accessor is never changed by later calls or resets
+		for _, h := range rec.ops {
+			if h.again != nil {
+				if now := h.again(); !equal(now, h.result) {
+					fails = append(fails, sched.Failure{Kind: "snapshot-mutated", Detail: fmt.Sprintf("a slice returned by %s held %v when it was returned and holds %v at the end of the execution", opNames[h.kind], h.result, now)})
+				}
+			}
+		}
 		for _, h := range rec.ops {
 			if h.ret < 0 {
 				h.ret = 1 << 30
